@@ -26,6 +26,36 @@ _CODEC_NOTE = ("Trusted: Python integer semantics for + - * // % << >> & | as tr
                "everything else (face, segment, 56-bit position S, list contents) stays symbolic. Unmodelled code gives UNDECIDED, never an alarm.")
 
 CHECKS = {
+    "C02": (
+        "float interval analysis with branch refinement (custom interprocedural ast interpreter)",
+        "Only the clause 'cell_to_lonlat(c) has longitude in [-180, 180]' is decided: the returned tuple of a5.core.cell.cell_to_lonlat is evaluated over float intervals, inlining DodecahedronProjection.inverse, to_spherical, to_lonlat and rad_to_deg through the resolved call graph; theta is the result of math.atan2 (range [-pi, pi] by the library contract), comparisons with constants refine the interval on both branches, loops that shift by 360 are unrolled while feasible. The latitude range, 'strictly inside its own ring' and 'maps back to the same cell' are numeric and NOT decided (DESIGN.md section 4).",
+        "Trusted: math.atan2 range; IEEE doubles (end points outward rounded, 1e-9 degree tolerance on the inclusion). Assumes atan2 attains its range over the globe (cells tile the sphere), so an out-of-range end point is attained.",
+        "DESIGN.md section 3, C02",
+    ),
+    "C12": (
+        "size summaries: sequence lengths as polynomials in the symbolic segment count (custom ast evaluator)",
+        "Only the counting / closure / defaults clause is decided: cell_to_boundary and everything that builds its ring (_get_pentagon, tiling.get_*_vertices, PentagonShape.{__init__, clone, split_edges, get_vertices, transformers}, normalize_longitudes) are evaluated over a domain that tracks only sequence lengths, as polynomials in the symbolic `segments`, for a partition of resolutions and all combinations of the two options (absent / explicit; 'auto', None, 1, 3, symbolic s >= 2). Decided: length == (3 at resolution 1, else 5) * segments + [closed_ring]; the closing element is ring[0], appended exactly once iff closed_ring; None/'auto'/absent agree; split_edges keeps each corner first in its edge group; the example passes keys the callee reads. Simplicity, orientation, latitude range and longitude jumps are numeric and NOT decided.",
+        "Trusted: Python list semantics. Appends under undecided conditions or in while loops give UNDECIDED.",
+        "DESIGN.md section 3, C12",
+    ),
+    "C15": (
+        "polynomial normal forms in Q[sin, cos, C_k] + independently derived oracle constants (mpmath) + derived error budget",
+        "The evaluator body is turned into a polynomial in sin(phi), cos(phi), phi and symbolic coefficients, reduced modulo s^2 + c^2 = 1, and compared with the normal form of phi + sum C_k sin(2(k+1)phi) for all phi at once; a residual is bounded with the literal coefficients (the shipped recurrence omits one -C[5] term: <= 2e-14 rad). The two literal tables are compared with the Fourier coefficients of the exact WGS84 authalic latitude and of its exact inverse, computed by mpmath from the definition (never from repository code). Wiring of forward/inverse and from_lonlat/to_lonlat is checked structurally. Oddness, the fixed points, strict monotonicity, the floating-point error budget and the round-trip bound are derived from the literals. A deviation is reported as a violation only with a witness latitude that breaks the 1e-10 or the 1e-12 clause.",
+        "Trusted: mpmath (zip-imported from the offline wheelhouse) at 30/50 digits, WGS84 1/f typed into the checker, IEEE doubles, libm sin/cos within 1 ulp.",
+        "DESIGN.md section 3, C15",
+    ),
+    "C16": (
+        "interprocedural effect / alias analysis over the resolved call graph (who-may-write shared state)",
+        "Program model with 0 unresolved call sites + points-to/effect summaries (depth-limited access paths, summaries instantiated per call site, so writes through `out` parameters are attributed to what the caller passed). Every write whose target may be a module-level object, in a function reachable from the 13 public functions, is classified: verified idempotent key-complete cache fill (3 instances), verified write-only counter (1), or violation with object, statement and call path. Under arbitrary preemption private state cannot be observed by another thread, so absence of other shared writes implies the property. Keyed stores that look like caches but are not verified are UNDECIDED, never alarms. A synthetic positive control (scratch written through an out-parameter helper) must fire on every run.",
+        "Trusted: single bytecode-level reference stores / list.append are atomic under the GIL; no reflection or monkey-patching (checked); callers do not mutate package internals. Flow-insensitive points-to: sound for may-write, may over-approximate aliases.",
+        "DESIGN.md section 3, C16",
+    ),
+    "C17": (
+        "interprocedural effect / alias analysis + cache-key injectivity by abstract interpretation",
+        "Same heap model as C16, single thread, arbitrary history. Decided: every API-reachable write to module-level state is a verified cache fill, a write-only counter or a scratch buffer completely written before it is read in every activation (must-define walk); cache keys are complete (every variable the value is computed from feeds the key) and injective (list indices evaluated by the abstract interpreter for every combination of boolean arguments: mixed-radix forms with disjoint ranges; dict key covers the whole argument); no public function mutates a parameter (transitively); public functions return objects allocated in the call, never module-level objects; no nondeterminism source is reachable from the API or import-time code.",
+        "Trusted: as C16. Bit-for-bit equality additionally assumes a deterministic libm.",
+        "DESIGN.md section 3, C17",
+    ),
     "C05": (
         "abstract interpretation over bit-field linear forms (custom ast interpreter)",
         "serialize / get_resolution / deserialize are interpreted abstractly on the generic cell (face, segment, S symbolic, S a priori unbounded), one run per resolution. Per resolution the analysis decides: the fit check bounds S to exactly its admissible range, the fields are disjoint and the id lies in [1, 2**64), the marker scanner returns r independently of the data bits, the decoder recovers face/segment/S/resolution, re-encoding is the identity; face-table facts come from the import-time code of origin.py. All 2**56 positions are covered at once. A violated obligation names the construct and shows the two disagreeing forms (with a witness valuation when the forms are not syntactically comparable).",
